@@ -109,7 +109,20 @@ for mtu in (60, 80):
       must_reach=["end", "answered", "overflow", "tx"],
       bounded="small-frame instance MTU=%d (capacity %d) so that 'more observations than fit' is reachable with lists of <= 3 (5) nodes; code is uniform in MTU" % (mtu, (mtu - 34) // 20))
 
+# ---------------------------------------------------------------- lltdBlock.c: large properties (C08)
+_LT = ["C08", "C19", "C01", "C02", "C18", "C17", "C05"]
+H("send_ltr", src="h_large_tlv.c", props=_LT, enforce=["sendLargeTlvResponse"], unwind=8, unwindset={"v_build_state.0": 50},
+  defines=["V_MTU_FIXED=576", "V_LIST_MAX=3"], defines_quick=["V_DCAP=2048"], defines_thorough=["V_DCAP=66000"], timeout_thorough=3000,
+  must_reach=["end", "more", "final", "beyond", "tx"],
+  bounded="MTU fixed to 576; property data of at most 2048 bytes (thorough: 66000) with every (size, offset) symbolic")
+H("parse_qlt", src="h_large_tlv.c", props=_LT, enforce=["parseQueryLargeTlv"], unwind=8,
+  unwindset={"v_build_state.0": 50, "parseQueryLargeTlv.0": 34, "v_hwid_size.0": 34, "h_parse_qlt.0": 66, "h_parse_qlt.1": 66, "v_give_blob.0": 50, "lltd_port_get_hw_id.0": 66},
+  defines=["V_MTU_FIXED=576", "V_LIST_MAX=3"], must_reach=["end", "icon", "fname", "hwid", "unknown", "seq0", "tx"],
+  bounded="MTU fixed to 576; icon / friendly name of at most 48 bytes in the platform model")
+H("c08_reassembly", src="h_large_tlv.c", props=["C08"], unwind=8, defines=["V_LIST_MAX=3"])
+
 PROPS = {
+    "C08": {"harnesses": ["send_ltr", "parse_qlt", "c08_reassembly"]},
     "C07": {"harnesses": ["parse_probe", "parse_query", "parse_query_mtu60", "parse_query_mtu80"]},
     "C06": {"harnesses": ["send_probe", "parse_emit", "parse_emit_strict", "parse_emit_1500"]},
     "C10": {"harnesses": ["send_probe", "parse_emit_strict"]},
